@@ -49,6 +49,9 @@ struct Case {
     /// an exact stateless reset reaches the closing side this many ms after its close()
     /// (the peer lost its state, e.g. restarted)
     reset_ms: Option<u64>,
+    /// the application that learns of the peer's close (ConnectionLost) calls close() itself this
+    /// many ms later, as many applications do in their cleanup path
+    late_close_ms: Option<u64>,
 }
 
 fn cfgs() -> Vec<PairCfg> {
@@ -178,6 +181,10 @@ fn run_case(base: Instant, c: &Case, dump: bool) -> Out {
         });
         let mut lives: BTreeMap<(usize, usize), Life> = BTreeMap::new();
         let mut closed_at: Option<Duration> = None;
+        let mut lost_seen: [Option<Duration>; 2] = [None, None];
+        let mut late_closed = [false; 2];
+        // where in the record log a draining connection's application called close()
+        let mut draining_close: [Option<usize>; 2] = [None, None];
         let mut close_emitted = true;
         let mut amp_exempt = false;
         let mut last_rx: [Duration; 2] = [Duration::ZERO; 2];
@@ -269,6 +276,25 @@ fn run_case(base: Instant, c: &Case, dump: bool) -> Out {
                 }
             }
             observe(&p, &mut lives);
+            if let Some(ms) = c.late_close_ms {
+                for node in [CLIENT, SERVER] {
+                    let chs: Vec<proto::ConnectionHandle> = p.w.nodes[node].conns.keys().copied().collect();
+                    for ch in chs {
+                        let Some(sl) = p.w.nodes[node].conns.get(&ch) else { continue };
+                        if sl.lost.is_empty() || late_closed[node] {
+                            continue;
+                        }
+                        let t0 = *lost_seen[node].get_or_insert(p.w.t);
+                        if p.w.t >= t0 + Duration::from_millis(ms) {
+                            late_closed[node] = true;
+                            if sl.conn.verif_probe().state == "draining" {
+                                draining_close[node] = Some(p.w.recs.len());
+                            }
+                            apply_op(&mut p, &Op::Close(node, 77));
+                        }
+                    }
+                }
+            }
             for r in p.w.recs.iter().rev().take(4) {
                 if let Rec::Deliver { node, t, routed: crate::sim::Routed::Conn(_), .. } = r {
                     if *node < 2 {
@@ -287,16 +313,24 @@ fn run_case(base: Instant, c: &Case, dump: bool) -> Out {
             p.w.step();
         }
         observe(&p, &mut lives);
-        (p, lives, closed_at, close_emitted, amp_exempt, last_rx)
+        (p, lives, closed_at, close_emitted, amp_exempt, last_rx, draining_close)
     });
     match r {
         Err(e) => Out { steps: 0, trace: 0, viol: vec![("panic".into(), format!("panic: {e}"))], close_emitted: false },
-        Ok((mut p, lives, closed_at, close_emitted, _amp, last_rx)) => {
+        Ok((mut p, lives, closed_at, close_emitted, _amp, last_rx, draining_close)) => {
             if dump {
                 print!("{}", crate::trace::dump(&p.w));
                 println!("lives={lives:?} closed_at={closed_at:?}");
             }
             let mut v: Vec<(String, String)> = vec![];
+            // a draining endpoint sends nothing (RFC 9000 10.2.2), whatever its application calls
+            for node in [CLIENT, SERVER] {
+                if let Some(pos) = draining_close[node] {
+                    if let Some(Rec::Emit { t, data, .. }) = p.w.recs[pos..].iter().find(|r| matches!(r, Rec::Emit { node: n, ch: Some(_), .. } if *n == node)) {
+                        v.push(("sent-while-draining".into(), format!("node{node} had received the peer's close (draining); its application then called close() and the connection sent a {}-byte datagram at {t:?}", data.len())));
+                    }
+                }
+            }
             let cfg = cfg_named(&c.cfg);
             let local_closer = |node: usize| match c.kind {
                 Kind::ClientClose => node == CLIENT,
@@ -626,7 +660,7 @@ pub fn main(args: &Args) -> ! {
             if !thorough && heavy && *wl == Wl::W2 {
                 continue;
             }
-            let b = run_case(base, &Case { cfg: cfg.client.name.clone(), wl: *wl, at_step: 0, kind: Kind::None, mask: 0, dup_close: false, reset_ms: None }, false);
+            let b = run_case(base, &Case { cfg: cfg.client.name.clone(), wl: *wl, at_step: 0, kind: Kind::None, mask: 0, dup_close: false, reset_ms: None, late_close_ms: None }, false);
             baselines.insert((cfg.client.name.clone(), wn.clone()), b.trace);
             let nsteps = b.steps.min(if thorough { 200 } else { 90 });
             let stride = if thorough || nsteps < 50 { 1 } else { 2 };
@@ -636,19 +670,24 @@ pub fn main(args: &Args) -> ! {
                         if !heavy && mask != 0 && mask != 1 {
                             continue;
                         }
-                        cases.push(Case { cfg: cfg.client.name.clone(), wl: *wl, at_step: j, kind: kind.clone(), mask, dup_close: false, reset_ms: None });
+                        cases.push(Case { cfg: cfg.client.name.clone(), wl: *wl, at_step: j, kind: kind.clone(), mask, dup_close: false, reset_ms: None, late_close_ms: None });
                     }
-                    cases.push(Case { cfg: cfg.client.name.clone(), wl: *wl, at_step: j, kind: kind.clone(), mask: 0, dup_close: true, reset_ms: None });
+                    cases.push(Case { cfg: cfg.client.name.clone(), wl: *wl, at_step: j, kind: kind.clone(), mask: 0, dup_close: true, reset_ms: None, late_close_ms: None });
+                    if kind != Kind::BothClose && heavy {
+                        for ms in [0u64, 40] {
+                            cases.push(Case { cfg: cfg.client.name.clone(), wl: *wl, at_step: j, kind: kind.clone(), mask: 0, dup_close: false, reset_ms: None, late_close_ms: Some(ms) });
+                        }
+                    }
                     if kind != Kind::BothClose && heavy {
                         for ms in [1u64, 40] {
-                            cases.push(Case { cfg: cfg.client.name.clone(), wl: *wl, at_step: j, kind: kind.clone(), mask: 0, dup_close: false, reset_ms: Some(ms) });
-                            cases.push(Case { cfg: cfg.client.name.clone(), wl: *wl, at_step: j, kind: kind.clone(), mask: 1, dup_close: false, reset_ms: Some(ms) });
+                            cases.push(Case { cfg: cfg.client.name.clone(), wl: *wl, at_step: j, kind: kind.clone(), mask: 0, dup_close: false, reset_ms: Some(ms), late_close_ms: None });
+                            cases.push(Case { cfg: cfg.client.name.clone(), wl: *wl, at_step: j, kind: kind.clone(), mask: 1, dup_close: false, reset_ms: Some(ms), late_close_ms: None });
                         }
                     }
                 }
                 if cfg.client.idle_ms.is_some() || cfg.client.name == "plain" {
                     for n in [CLIENT, SERVER] {
-                        cases.push(Case { cfg: cfg.client.name.clone(), wl: *wl, at_step: j, kind: Kind::Blackhole(n), mask: 0, dup_close: false, reset_ms: None });
+                        cases.push(Case { cfg: cfg.client.name.clone(), wl: *wl, at_step: j, kind: Kind::Blackhole(n), mask: 0, dup_close: false, reset_ms: None, late_close_ms: None });
                     }
                 }
             }
@@ -674,8 +713,8 @@ pub fn main(args: &Args) -> ! {
             };
             rep.violation(Violation {
                 signature: sig2,
-                what: format!("cfg={} wl={:?} kind={:?} step={} mask={:#b} dup_close={} stateless-reset-after={:?}ms: {what}", c.cfg, c.wl, c.kind, c.at_step, c.mask, c.dup_close, c.reset_ms),
-                replay: json!({"check":"c08","cfg":c.cfg,"wl":format!("{:?}",c.wl),"kind":format!("{:?}",c.kind),"step":c.at_step,"mask":c.mask,"dup_close":c.dup_close,"reset_ms":c.reset_ms}),
+                what: format!("cfg={} wl={:?} kind={:?} step={} mask={:#b} dup_close={} stateless-reset-after={:?}ms close()-after-ConnectionLost={:?}ms: {what}", c.cfg, c.wl, c.kind, c.at_step, c.mask, c.dup_close, c.reset_ms, c.late_close_ms),
+                replay: json!({"check":"c08","cfg":c.cfg,"wl":format!("{:?}",c.wl),"kind":format!("{:?}",c.kind),"step":c.at_step,"mask":c.mask,"dup_close":c.dup_close,"reset_ms":c.reset_ms,"late_close_ms":c.late_close_ms}),
             });
         }
     }
@@ -785,6 +824,7 @@ fn replay(args: &Args) -> ! {
         mask: r["mask"].as_u64().unwrap_or(0),
         dup_close: r["dup_close"].as_bool().unwrap_or(false),
         reset_ms: r["reset_ms"].as_u64(),
+        late_close_ms: r["late_close_ms"].as_u64(),
     };
     let o = run_case(Instant::now(), &c, true);
     println!("violations: {:?}", o.viol);
